@@ -4,6 +4,7 @@ import (
 	"context"
 	"fmt"
 	logslog "log/slog"
+	"strconv"
 	"strings"
 
 	"github.com/hedzr/is/states"
@@ -240,6 +241,9 @@ func (level Level) ShortTag(length int) string {
 }
 
 func (level *Level) UnmarshalJSON(text []byte) error {
+	if str, err := strconv.Unquote(string(text)); err == nil {
+		return level.UnmarshalText([]byte(str))
+	}
 	return level.UnmarshalText(text)
 }
 
